@@ -237,7 +237,10 @@ type sessReplay struct {
 	Concurrent bool       `json:"concurrent,omitempty"` // the calls ran at the same time
 }
 
-func (s *sessionRunner) runSession(calls []sessCall) {
+func (s *sessionRunner) runSession(calls []sessCall) { s.runSessionMode(calls, false) }
+
+// heldOnly: only the rule about the errors of earlier calls is applied (the last call belongs to another property)
+func (s *sessionRunner) runSessionMode(calls []sessCall, heldOnly bool) {
 	last := calls[len(calls)-1]
 	want := s.aloneObs(last)
 	if want == nil {
@@ -266,6 +269,9 @@ func (s *sessionRunner) runSession(calls []sessCall) {
 		raw = append(raw, rp.RawErr)
 	}
 	s.r.Count("sessions_replayed", 1)
+	if heldOnly {
+		return
+	}
 	got := sessObsOf(last, rp)
 	if reflect.DeepEqual(got, *want) {
 		return
@@ -374,6 +380,7 @@ func sessionPhaseIn(r *evid.Run, bin, build string) {
 	type work struct {
 		calls []sessCall
 		par   bool
+		held  bool
 	}
 	ch := make(chan work, 256)
 	var wg sync.WaitGroup
@@ -385,7 +392,7 @@ func sessionPhaseIn(r *evid.Run, bin, build string) {
 				if w.par {
 					s.runPair(w.calls)
 				} else {
-					s.runSession(w.calls)
+					s.runSessionMode(w.calls, w.held)
 				}
 			}
 		}()
@@ -408,16 +415,20 @@ func sessionPhaseIn(r *evid.Run, bin, build string) {
 					}
 				}
 				if !par { // (the page renders one document at a time)
-					ch <- work{calls, false}
+					ch <- work{calls, false, false}
 				}
 			} else if par {
 				// calls at the same time are C13's ("or concurrently in other goroutines"; "independent From-Markdown
 				// calls running concurrently"), whatever the operations
 				if r.ID == "C13" && len(calls) == 2 {
-					ch <- work{calls, true}
+					ch <- work{calls, true, false}
 				}
 			} else if calls[len(calls)-1].owner() == r.ID {
-				ch <- work{calls, false}
+				ch <- work{calls, false, false}
+			} else if r.ID == "C13" && (calls[0].Doc == "fmt1" || calls[0].Doc == "fmt2") {
+				// a call that failed with a format error, then any other call: the error value the caller still holds
+				// says what it said (results do not depend on later calls either)
+				ch <- work{calls, false, true}
 			}
 			return nil
 		})
